@@ -31,6 +31,15 @@ elif kind == "benign":
     text = json.dumps({k: p[k] for k in ("id", "title", "statement", "quantifier", "why_tests_cant", "anchors")}, indent=1)
     t = open(V + "/tools/benign_prompt.txt").read()
     print(t.replace("{WT}", "/tmp/%s-wt" % tag).replace("{TAG}", tag).replace("{PROPERTY}", text).replace("{N}", n).replace("{PID}", pid))
+elif kind == "robustify":
+    pid, fam, fails = sys.argv[2], sys.argv[3], sys.argv[4].split(",")
+    t = open(V + "/tools/robustify_prompt.txt").read()
+    fs = []
+    for m in fails:
+        meta = json.load(open(V + "/benign/%s/meta.json" % m))
+        res = meta.get("check_result", {}).get("quick", {})
+        fs.append("- %s: %s\n  (quick rc=%s)\n  %s" % (m, meta["summary"][:600], res.get("rc"), "\n  ".join([l for l in res.get("output", "").splitlines() if ".go:" in l or "undefined" in l or "FAIL" in l or "VIOLATION" in l][:8])))
+    print(t.replace("{PID}", pid).replace("{pid}", pid.lower()).replace("{FAM}", fam).replace("{FAILS}", "\n".join(fs)))
 elif kind == "strengthen":
     pid, fam, misses = sys.argv[2], sys.argv[3], sys.argv[4].split(",")
     t = open(V + "/tools/strengthen_prompt.txt").read()
